@@ -50,6 +50,68 @@ type EmbB struct {
 	B string
 }
 
+// Named container types that contain themselves: reflect's Elem() walk from one of them never reaches
+// a non-container type. Until /repo 041b92d registering a struct with a field of such a type never
+// returned (C06-recompose-selfcontaining-container: the unwrap loop of registerComposer).
+
+// Tree is a map of itself.
+type Tree map[string]Tree
+
+// SelfL is a slice of itself.
+type SelfL []SelfL
+
+// ListA and ListB contain each other.
+type ListA []ListB
+
+// ListB is a slice of ListA.
+type ListB []ListA
+
+// SelfP is a pointer to itself.
+type SelfP *SelfP
+
+// ArrS is an array of slices of itself.
+type ArrS [2][]ArrS
+
+// MapL is a map of slices of itself.
+type MapL map[string][]MapL
+
+// HasTree has a field of a self-containing map type.
+type HasTree struct {
+	Name string
+	Kids Tree
+}
+
+// HasSelfL has a field of a self-containing slice type.
+type HasSelfL struct {
+	L SelfL
+	N int
+}
+
+// HasAB has fields of two mutually containing slice types.
+type HasAB struct {
+	A ListA
+	B *ListB
+}
+
+// HasSelfP has a field of a self-pointing pointer type.
+type HasSelfP struct {
+	P SelfP
+	S string
+}
+
+// HasArrS has a field of an array type that contains itself through a slice.
+type HasArrS struct {
+	X ArrS
+}
+
+// HasMapL has a field of a map type that contains itself through a slice, and a struct that has a
+// self-containing field of its own.
+type HasMapL struct {
+	M     MapL
+	Inner *HasTree
+	Items []HasSelfL
+}
+
 // Odd has fields of kinds the recomposer has no case for.
 type Odd struct {
 	F    func()
